@@ -13,10 +13,13 @@ UNDEF = Undefined()
 
 class Cell:
     """A variable. Closures capture cells, so sharing is by reference."""
-    __slots__ = ("v",)
+    __slots__ = ("v", "w", "home", "kind")
 
-    def __init__(self, v=None):
+    def __init__(self, v=None, home=0, kind="let"):
         self.v = v
+        self.w = home  # activation that last wrote it
+        self.home = home  # activation that declared it
+        self.kind = kind
 
 
 class LObj:
@@ -84,9 +87,10 @@ class LInstance(LObj):
 
 
 class LClosure(LObj):
-    __slots__ = ("name", "params", "body", "env", "kind", "owner", "module")
+    __slots__ = ("name", "params", "body", "env", "kind", "owner", "module", "home")
 
-    def __init__(self, name, params, body, env, kind="fn", owner=None, module=None):
+    def __init__(self, name, params, body, env, kind="fn", owner=None, module=None, home=0):
+        self.home = home  # activation that created the closure
         self.name = name
         self.params = params
         self.body = body
@@ -162,7 +166,11 @@ def is_falsey(v):
 
 
 def fmt_num(x):
-    """Rust's `Display for f64`: shortest round trip digits, never an exponent."""
+    """Rust's `Display for f64`: shortest round trip digits, never an exponent.
+
+    Python's repr is shortest round trip too; the two differ only when two shortest candidates
+    are exactly equally close to the value (python then rounds half to even, Rust rounds the
+    magnitude up), e.g. -999999999999993.25 -> python ...993.2, Rust ...993.3."""
     if x != x:
         return "NaN"
     if x == math.inf:
@@ -171,7 +179,15 @@ def fmt_num(x):
         return "-inf"
     if x == 0.0:
         return "-0" if math.copysign(1.0, x) < 0 else "0"
-    s = format(Decimal(repr(float(x))), "f")
+    d = Decimal(repr(float(x)))
+    sign, digits, exp = d.as_tuple()
+    q = Decimal((0, (1,), exp))
+    exact = Decimal(float(x))
+    if abs(exact) - abs(d) == q / 2:
+        cand = abs(d) + q
+        if float(cand) == abs(x):
+            d = cand.copy_sign(d)
+    s = format(d, "f")
     if "." in s:
         s = s.rstrip("0").rstrip(".")
     return s
